@@ -1132,6 +1132,11 @@ class sptensor:
             assert False, "Logical Or requires tensors of the same size"
 
         if isinstance(other, ttb.sptensor):
+            # An operand without stored entries contributes nothing
+            if self.nnz == 0:
+                return other.ones() if other.nnz > 0 else sptensor(shape=self.shape)
+            if other.nnz == 0:
+                return self.ones()
             C = sptensor.from_aggregator(
                 np.vstack((self.subs, other.subs)),
                 np.ones((self.subs.shape[0] + other.subs.shape[0], 1)),
@@ -1203,6 +1208,11 @@ class sptensor:
             if self.shape != other.shape:
                 assert False, "Logical XOR requires tensors of the same size"
 
+            # An operand without stored entries contributes nothing
+            if self.nnz == 0:
+                return other.ones() if other.nnz > 0 else sptensor(shape=self.shape)
+            if other.nnz == 0:
+                return self.ones()
             subs = np.vstack((self.subs, other.subs))
             result = ttb.sptensor.from_aggregator(
                 subs, np.ones((len(subs), 1)), self.shape, lambda x: len(x) == 1
